@@ -36,6 +36,165 @@ type plan struct {
 	States []state // States[i] = set after i blocks (States[0] = empty)
 }
 
+// genBulkPlan builds a snapshot of exactly nrec records, almost all tiny (1-2 outputs, short
+// scripts), so that record counts around the loader's read-ahead pack (0x10000 records, 6 pools)
+// and the saver's 64 KiB chunks / 100-chunk queue are cheap to reach. A handful of records are
+// larger than one save chunk (0x10000), than the loader's bufio buffer (0x40000) and than both.
+func genBulkPlan(seed uint64, nrec int, baseH uint32) *plan {
+	r := vlib.NewRand(seed).Fork("bulk")
+	g := newGen()
+	p := &plan{}
+	p.States = append(p.States, state{})
+	cur := state{}
+	keys := map[[8]byte]bool{}
+	const extra = 40 // records that get fully spent again
+	bigScripts := []int{65500, 66000, 70000, 131100, 262100, 262200, 300000}
+	if nrec < len(bigScripts)+10 {
+		bigScripts = nil
+	}
+	total := nrec + extra
+	var order [][32]byte
+	var twoOuts [][32]byte
+	tiny := func() *rec {
+		for {
+			rc := &rec{Fam: "bulk-tiny", CB: r.Intn(16) == 0, H: baseH - uint32(r.Intn(int(baseH%1000)+1))}
+			r.Fill(rc.TxID[:])
+			var k8 [8]byte
+			copy(k8[:], rc.TxID[:8])
+			if keys[k8] {
+				continue
+			}
+			keys[k8] = true
+			n := 1
+			if r.Intn(10) < 3 {
+				n = 2 + r.Intn(2)
+			}
+			rc.Outs = make([]*out, n)
+			for i := range rc.Outs {
+				if i > 0 && r.Intn(4) == 0 {
+					continue
+				}
+				var sc []byte
+				var sf string
+				switch k := r.Intn(10); {
+				case k < 6:
+					sc, sf = g.special(r, 0)
+				case k < 8:
+					sc, sf = g.special(r, 1)
+				case k < 9:
+					sc, sf = g.special(r, 22)
+				default:
+					sc, sf = r.Bytes(r.Intn(11)), "random-short"
+				}
+				rc.Outs[i] = g.newOut(r, sc, sf)
+			}
+			return rc
+		}
+	}
+	nblocks := 4
+	added := 0
+	for b := 0; b < nblocks; b++ {
+		bl := blk{Height: baseH + uint32(b), Del: map[[32]byte][]bool{}, Undo: map[[32]byte]*rec{}}
+		r.Fill(bl.Hash[:])
+		next := make(state, len(cur)+total/2)
+		for k, v := range cur {
+			next[k] = v
+		}
+		spend := func(id [32]byte, all bool) {
+			old := next[id]
+			if old == nil || bl.Del[id] != nil {
+				return
+			}
+			del := make([]bool, len(old.Outs))
+			und := &rec{TxID: old.TxID, CB: old.CB, H: old.H, Outs: make([]*out, len(old.Outs)), Fam: old.Fam}
+			nw := &rec{TxID: old.TxID, CB: old.CB, H: old.H, Outs: make([]*out, len(old.Outs)), Fam: old.Fam}
+			first := true
+			for i, o := range old.Outs {
+				if o == nil {
+					continue
+				}
+				if all || first {
+					del[i], und.Outs[i] = true, o
+				} else {
+					nw.Outs[i] = o
+				}
+				first = false
+			}
+			bl.Del[id], bl.Undo[id] = del, und
+			if nw.live() == 0 {
+				delete(next, id)
+			} else {
+				next[id] = nw
+			}
+		}
+		if b == 2 {
+			for i := 0; i < extra; i++ {
+				spend(order[i*7%len(order)], true) // distinct while extra*7 < len(order)
+			}
+		}
+		if b >= 2 {
+			for i := 0; i < 200 && i < len(twoOuts); i++ {
+				id := twoOuts[r.Intn(len(twoOuts))]
+				if old := next[id]; old != nil && old.live() >= 2 {
+					spend(id, false)
+				}
+			}
+		}
+		var na int
+		switch b {
+		case 0:
+			na = total / 2
+		case 1:
+			na = total/2 - 100
+		case 2:
+			na = 50
+		default:
+			na = total - added
+		}
+		if na > total-added {
+			na = total - added
+		}
+		for a := 0; a < na; a++ {
+			var rc *rec
+			if b == 1 && a%997 == 5 && len(bigScripts) > 0 {
+				rc = tiny()
+				rc.Fam = "bulk-big"
+				l := bigScripts[0]
+				bigScripts = bigScripts[1:]
+				rc.Outs = []*out{g.newOut(r, r.Bytes(l), fmt.Sprintf("random-len%d", l))}
+			} else if b == 1 && a == 11 && nrec > 5000 {
+				rc = tiny()
+				rc.Fam = "bulk-big"
+				rc.Outs = make([]*out, 3000) // ~100 KB of small outputs in one record
+				for i := range rc.Outs {
+					sc, sf := g.special(r, 0)
+					rc.Outs[i] = g.newOut(r, sc, sf)
+				}
+			} else {
+				rc = tiny()
+				if rc.live() >= 2 {
+					twoOuts = append(twoOuts, rc.TxID)
+				}
+			}
+			bl.Add = append(bl.Add, rc)
+			next[rc.TxID] = rc
+			order = append(order, rc.TxID)
+			added++
+		}
+		p.Blocks = append(p.Blocks, bl)
+		p.States = append(p.States, next)
+		cur = next
+	}
+	return p
+}
+
+func makePlan(seed uint64, nrec int, baseH uint32, spendAll, bulk bool) *plan {
+	if bulk {
+		return genBulkPlan(seed, nrec, baseH)
+	}
+	return genPlan(seed, nrec, baseH, spendAll)
+}
+
 // genPlan builds ~nrec final records. spendAll empties the set again (snapshot with 0 records).
 func genPlan(seed uint64, nrec int, baseH uint32, spendAll bool) *plan {
 	r := vlib.NewRand(seed).Fork("plan")
@@ -154,6 +313,7 @@ func genPlan(seed uint64, nrec int, baseH uint32, spendAll bool) *plan {
 // children
 
 type snapArgs struct {
+	Bulk        bool
 	Op          string // write | read | convert
 	Dir         string
 	Seed        uint64
@@ -170,7 +330,24 @@ type snapArgs struct {
 	Out         string
 }
 
+type dbCounters struct {
+	TotalTxs, DataSize int // UnspentDB.GetUTXOSize(): totalTxs, dataSize
+	MapCount, MapBytes int // recomputed from HashMap
+}
+
+func readCounters(db *utxo.UnspentDB) (c dbCounters) {
+	c.DataSize, c.TotalTxs, _ = db.GetUTXOSize()
+	for i := range db.HashMap {
+		c.MapCount += len(db.HashMap[i])
+		for _, v := range db.HashMap[i] {
+			c.MapBytes += len(*v)
+		}
+	}
+	return
+}
+
 type writerReport struct {
+	Counters         dbCounters
 	Applied          int
 	IdleReturned     []bool
 	SaveCompleted    []bool
@@ -237,7 +414,7 @@ func writeReport(a *snapArgs, rep *writerReport) {
 
 func snapWrite(a *snapArgs) {
 	rep := &writerReport{}
-	p := genPlan(a.Seed, a.NRec, a.BaseH, a.SpendAll)
+	p := makePlan(a.Seed, a.NRec, a.BaseH, a.SpendAll, a.Bulk)
 	db := utxo.NewUnspentDb(&utxo.NewUnspentOpts{Dir: a.Dir, CompressRecords: a.CompressOpt})
 	rep.LoadedHeight = db.LastBlockHeight
 	rep.LoadedCompressed = db.ComprssedUTXO
@@ -275,6 +452,7 @@ func snapWrite(a *snapArgs) {
 			// no wait: the next commit aborts the save if it is still running
 		}
 	}
+	rep.Counters = readCounters(db)
 	rep.ComprFlag = db.ComprssedUTXO
 	rep.SerializeIsC = funcPtr(utxo.Serialize) == funcPtr(utxo.SerializeC)
 	rep.DecoderIsC = funcPtr(utxo.NewUtxoRecOwn) == funcPtr(utxo.NewUtxoRecOwnC)
@@ -344,6 +522,7 @@ type dumpHead struct {
 	Count      int    `json:"count"`
 	DecoderIsC bool   `json:"decoder_is_c"`
 	Lookups    int    `json:"lookups"`
+	Counters   dbCounters
 	Files      []string
 }
 
@@ -401,6 +580,7 @@ func snapRead(a *snapArgs) {
 	for _, e := range ents {
 		head.Files = append(head.Files, e.Name())
 	}
+	head.Counters = readCounters(db)
 	enc.Encode(&head)
 	for i := range recs {
 		enc.Encode(&recs[i])
@@ -579,6 +759,15 @@ func (s *snapRunner) compare(sc *scenario, step string, p *plan, allowed []int, 
 			}
 		}
 	}
+	// the DB's own bookkeeping after the reload against what is really in its maps
+	if c := h.Counters; c.TotalTxs != c.MapCount {
+		run.Violation("snapshot/counter-totalTxs-vs-map/"+fm, fmt.Sprintf("after reload totalTxs=%d but the maps hold %d records (saved set: %d)", c.TotalTxs, c.MapCount, len(exp)), wit(nil))
+		ok = false
+	} else if c.DataSize != c.MapBytes {
+		run.Violation("snapshot/counter-dataSize-vs-map/"+fm, fmt.Sprintf("after reload dataSize=%d but the records in the maps total %d bytes", c.DataSize, c.MapBytes), wit(nil))
+		ok = false
+	}
+	run.Count("snapshot_counter_checks", 1)
 	run.Count("snapshot_lookups", int64(h.Lookups))
 	run.Count("snapshot_reopens", 1)
 	run.Count("snapshot_reopens_"+fm, 1)
@@ -617,11 +806,12 @@ type scenario struct {
 	BaseH      uint32
 	SpendAll   bool
 	RealAlloc  bool
+	Bulk       bool
 	OtherState int `json:"-"`
 }
 
 var scenarioKinds = []string{"A-plain-close", "A2-plain-two-sessions", "B-compress-option-fresh", "C-converted-compressed",
-	"D-idle-then-close", "E-idle-abort-exit", "F-only-old-stray-tmp", "G-unreadable-db-good-old", "H-nothing-committed", "I-info-truncated-records-db-good-old"}
+	"D-idle-then-close", "E-idle-abort-exit", "F-only-old-stray-tmp", "G-unreadable-db-good-old", "H-nothing-committed", "I-info-truncated-records-db-good-old", "K-bulk-plain", "L-bulk-compressed", "M-bulk-plain-idle-then-close"}
 
 func (s *snapRunner) childFailed(sc *scenario, step string, res vlib.ChildResult, rep *writerReport) bool {
 	if res.TimedOut {
@@ -648,9 +838,9 @@ func (s *snapRunner) runScenario(sc *scenario) {
 	defer os.RemoveAll(tmp)
 	dir := tmp + "/db/"
 	os.MkdirAll(dir, 0o755)
-	p := genPlan(sc.Seed, sc.NRec, sc.BaseH, sc.SpendAll)
+	p := makePlan(sc.Seed, sc.NRec, sc.BaseH, sc.SpendAll, sc.Bulk)
 	nb := len(p.Blocks)
-	base := snapArgs{Dir: dir, Seed: sc.Seed, NRec: sc.NRec, BaseH: sc.BaseH, SpendAll: sc.SpendAll, RealAlloc: sc.RealAlloc}
+	base := snapArgs{Dir: dir, Seed: sc.Seed, NRec: sc.NRec, BaseH: sc.BaseH, SpendAll: sc.SpendAll, RealAlloc: sc.RealAlloc, Bulk: sc.Bulk}
 	stepNo := 0
 	write := func(step string, mod func(a *snapArgs)) (*writerReport, bool) {
 		a := base
@@ -667,6 +857,11 @@ func (s *snapRunner) runScenario(sc *scenario) {
 			run.Inconclusive("no writer report %v %s", sc, step)
 			return nil, false
 		}
+		if c := rep.Counters; c.TotalTxs != c.MapCount || c.DataSize != c.MapBytes {
+			run.Violation("snapshot/counters-after-commit/"+sc.Kind, fmt.Sprintf("after CommitBlockTxs totalTxs=%d dataSize=%d but the maps hold %d records / %d bytes", c.TotalTxs, c.DataSize, c.MapCount, c.MapBytes),
+				map[string]interface{}{"scenario": sc, "step": step})
+		}
+		run.Count("writer_counter_checks", 1)
 		return rep, true
 	}
 	read := func(step string, allowed []int, wantC int, mismatch bool) bool {
@@ -851,6 +1046,27 @@ func (s *snapRunner) runScenario(sc *scenario) {
 				run.Count("info_truncated_records_UTXO.db:fallback_set_differs_from_old", 1)
 			}
 		}
+	case "K-bulk-plain", "L-bulk-compressed":
+		wantC := 0
+		if sc.Kind == "L-bulk-compressed" {
+			wantC = 1
+		}
+		if _, ok := write("write-all", func(a *snapArgs) { a.A, a.B = 0, nb; a.CompressOpt = wantC == 1 }); ok {
+			read("reopen", []int{nb}, wantC, false)
+		}
+	case "M-bulk-plain-idle-then-close":
+		// background (paced, chunk-queued) save of a large set, then a second save on Close
+		rep, ok := write("write-idle-close", func(a *snapArgs) { a.A, a.B = 0, nb; a.Save = "idle-close"; a.K = nb - 1 })
+		if !ok {
+			return
+		}
+		if len(rep.SaveCompleted) == 0 || !rep.SaveCompleted[0] {
+			run.Inconclusive("background save was not observed complete on disk %v", sc)
+			return
+		}
+		read("reopen", []int{nb}, 0, false)
+		os.Remove(dir + "UTXO.db")
+		read("reopen-from-UTXO.old", []int{nb - 1}, 0, false)
 	case "H-nothing-committed":
 		if _, ok := write("open-close", func(a *snapArgs) { a.A, a.B = 0, 0 }); ok {
 			read("reopen", []int{0}, -1, false)
